@@ -153,7 +153,7 @@ class Server:
             out.append(m)
 
     # --- lifecycle helpers
-    def initialize(self, diagnostics=True, timeout=10.0):
+    def initialize(self, diagnostics=True, timeout=90.0):      # generous: a loaded machine starts a debug binary slowly
         caps = {"textDocument": {"publishDiagnostics": {}}} if diagnostics else {}
         r = self.request("initialize", {"processId": None, "rootUri": None, "capabilities": caps}, timeout=timeout)
         self.notify("initialized", {})
